@@ -9,6 +9,8 @@ TEXT = {
  "C15": "Bounded symbolic model checking: histories of put/delete/compact/restart; after every Compact the directory listing, live-segment set and side files are checked and the database must stay usable (Sync, Put, Delete, Close, Open).",
  "C03": "Bounded symbolic model checking with fault injection as path forks: every mutating file-system call of the armed history suffix is a crash point (and every 512-aligned tear of a data write), then the real recovery runs symbolically and the recovered observable state must equal the reference before or after the operation in flight (one disjunctive SMT obligation per path); contents and hash layout symbolic.",
  "C04": "As C03 over three epochs: crash in epoch 1 (torn writes included), second crash at any file-system call of the recovering Open, acknowledged operations in the recovered session, process death, final recovery and a repeated recovery; every acknowledged write must be present, recovery idempotent, segment append offsets equal file lengths.",
+ "C06": "Bounded symbolic model checking under the property's power-loss model (harness FileSystem: directory ops durable, data volatile until File.Sync): histories with durability points, power failure between any two operations (thorough: at any mutating FS call), symbolic choice of the surviving prefixes, real recovery executed symbolically; each key must hold its durable value or a later one (one disjunctive SMT obligation per key).",
+ "C09": "As C06 for the clean-shutdown checkpoint: after Close returns nil a power failure (right after Close; thorough: at any FS call of the next Open) with a symbolic choice of what survives in every file must leave exactly the closed contents.",
  "C08": "Differential symbolic execution of recoveryIterator/segmentIterator (with bufio and io.ReadFull from stdlib SSA) against a reference decoder on segments whose tail bytes are fully symbolic: same accepted records, truncation to the accepted prefix, no error/panic, for all tail contents up to the stated length.",
  "C18": "Differential symbolic execution of the encoders/decoders against a reference written from docs/design.md; all contents symbolic, sizes case-split; MurmurHash3 compared as bit-vector terms for all inputs of each length.",
  "C19": "Every allocation executed during recovery of a segment with a fully symbolic damaged header is an SMT obligation size <= budget, the size being a symbolic expression of the header; unsat covers all 2^48 headers within the tail-length bound.",
